@@ -376,6 +376,7 @@ func checkC05(c *Ctx) {
 		return
 	}
 	c.ruleDetachedData("L7.detached")
+	c.ruleSetOrder("L6.setorder")
 	// the digest that is signed is the digest of the whole content: a reader that fails
 	// while the image is hashed makes signing fail (C1/C2, shared with C15)
 	if sa := c.FnOpt("authenticode.SignAuthenticode"); sa != nil {
@@ -731,12 +732,18 @@ func checkC05(c *Ctx) {
 // the view that builder is filled.
 func (c *Ctx) topBuilderShape(dv *deepView) string {
 	var b dval
-	found := false
+	found, inRoot := false, false
 	for _, di := range dv.order {
 		if call, ok := di.i.(*ssa.Call); ok {
 			id := ir.CallID(call)
 			if id == cbPkg+".Builder.Bytes" || id == cbPkg+".Builder.BytesOrPanic" {
-				b, found = dv.objectOf(call.Call.Args[0], di.fr), true
+				// the builder the function itself finishes; one finished in a helper (a
+				// re-encoding step behind it, say) only if there is no such
+				if di.fr == dv.root {
+					b, found, inRoot = dv.objectOf(call.Call.Args[0], di.fr), true, true
+				} else if !inRoot {
+					b, found = dv.objectOf(call.Call.Args[0], di.fr), true
+				}
 			}
 		}
 	}
@@ -970,4 +977,49 @@ func (d *deepView) hasReset(h dval) bool {
 		}
 	}
 	return false
+}
+
+// ruleSetOrder (L6.setorder): the SET OF attributes that is signed (and
+// re-encoded to verify) is in DER order for every content type. The
+// contentType attribute is as long as the caller's OID is, so no fixed order
+// of emission is the ascending order of the encodings for all inputs: the
+// encoder has to order the encoded elements. Decided by provenance: what
+// Marshal returns passes through a sorting step over the elements (sort.* /
+// slices.Sort*; a hand-written ordering with bytes.Compare is not judged).
+func (c *Ctx) ruleSetOrder(rule string) {
+	fn := c.FnOpt("pkcs7.(*Attributes).Marshal")
+	if fn == nil {
+		fn = c.FnOpt("pkcs7.(Attributes).Marshal")
+	}
+	if fn == nil {
+		c.R.Undecf(rule, "pkcs7.(*Attributes).Marshal", "anchor", "-", "the attribute SET encoder must resolve", "method not found")
+		return
+	}
+	sorts, compares := "", false
+	for _, g := range c.cone(fn) {
+		for _, f := range withAnon(g) {
+			instrsOf(f, func(i ssa.Instruction) {
+				call, ok := i.(ssa.CallInstruction)
+				if !ok {
+					return
+				}
+				switch id := ir.CallID(call); {
+				case id == "sort.Slice", id == "sort.SliceStable", id == "sort.Sort", id == "sort.Stable", strings.HasPrefix(id, "slices.Sort"):
+					sorts = id
+				case id == "bytes.Compare":
+					compares = true
+				}
+			})
+		}
+	}
+	what := "the signed attributes are a DER SET OF: its elements are in ascending order of their encodings, whatever the content type"
+	switch {
+	case sorts != "":
+		c.R.Okf(rule, name(fn), "set-of-order", c.Pos(fn.Pos()), "the encoder orders the encoded attributes ("+sorts+")")
+	case compares:
+		c.R.Infof(rule, name(fn), "set-of-order", c.Pos(fn.Pos()), "not decided for this shape: the encoder compares encodings (bytes.Compare) but no sorting call is found; a hand-written ordering is not evaluated")
+	default:
+		c.R.Violf(rule, name(fn), "set-of-order", c.Pos(fn.Pos()), what,
+			"the attributes are emitted in a fixed order (contentType, signingTime, messageDigest, others) and nothing orders the encoded elements: a content type whose OID encodes to 14 octets or more makes the contentType attribute longer than signingTime, so the SET is not in DER order and verifiers that re-encode it (go.mozilla.org/pkcs7) reject the signature")
+	}
 }
